@@ -66,3 +66,55 @@ func ZZH_C08_stub_entry() {
 	ok2, _ := exec.ledger.GetState(zzAddr(target), []byte("fresh"))
 	zz.Assert("C17.stub-entry.no-key-planted", !ok2)
 }
+
+// ZZH_C08_broker_entry: the inter-broker contract runs EVM code on behalf of an interchain request to
+// a service on the hub itself (BoltStubImpl.CrossInvokeEVM). An external account calls its
+// InvokeInterchain entry point with a request to an EVM contract (one that writes storage and stops,
+// or an address without code), from a funded or an unfunded account, with or without a gas price,
+// through the real applyTx: block execution survives, and a FAILED receipt leaves the EVM
+// contract's storage and every balance but the sender's untouched.
+// zz:also C07 C17
+func ZZH_C08_broker_entry() {
+	price := big.NewInt(int64(zz.Choice("gasPrice", 2)))
+	exec := zzNewExec(1, price)
+	if zz.Choice("senderFunded", 2) == 1 {
+		exec.ledger.SetBalance(zzAddr(zzUsers[0]), big.NewInt(1000000000))
+	}
+	contract := zzAddr(zzEvmContract)
+	withCode := zz.Choice("targetHasCode", 2) == 1
+	if withCode {
+		exec.ledger.SetCode(contract, zzEvmProgram(0, 0))
+	}
+	slot := make([]byte, 32)
+	seven := make([]byte, 32)
+	seven[31] = 7
+	exec.ledger.SetState(contract, slot, seven, nil)
+	exec.ledger.SetState(constant.InterchainContractAddr.Address(), []byte("bitxhub-id"), []byte("1356"), nil)
+	accounts, root := exec.ledger.FlushDirtyData()
+	_ = exec.ledger.StateLedger.Commit(1, accounts, root)
+	exec.ledger.PrepareBlock(zzHash(2), 2)
+	exec.evm = newEvm(2, 1, exec.evmChainCfg, exec.ledger.StateLedger, exec.ledger.ChainLedger, exec.admins[0], exec.evmMaxSize)
+	exec.txsExecutor.ApplyTransactions(nil, nil)
+	content := &pb.Content{Func: "f", Args: [][]byte{{1, 2, 3, 4}}}
+	if zz.Choice("emptyArgs", 2) == 1 {
+		content.Args = nil
+	}
+	cdata, _ := content.Marshal()
+	ibtp := &pb.IBTP{From: "1356:chA:sA", To: "1356:1356:" + zzEvmContract, Index: 1, Type: pb.IBTP_INTERCHAIN, Payload: cdata}
+	data, _ := ibtp.Marshal()
+	method := []string{"InvokeInterchain", "InvokeReceipt"}[zz.Choice("entry", 2)]
+	tx := zzBvmTx(zzUsers[0], 0, constant.InterBrokerContractAddr.Address().String(), 0, method, pb.Bytes(data))
+	tx.Signature = make([]byte, 66) // a signed transaction: type flag + 65 signature bytes (content irrelevant here)
+	var receipt *pb.Receipt
+	crashed, _ := zz.Crashed(func() { receipt = exec.applyTx(0, tx, "", nil) })
+	zz.Assert("C08.broker.block-execution-survives", !crashed)
+	if crashed || receipt == nil {
+		return
+	}
+	zz.Observe("ret", string(receipt.Ret))
+	zz.Cover("C08.broker.accepted", receipt.Status == pb.Receipt_SUCCESS)
+	if receipt.Status == pb.Receipt_FAILED {
+		ok, v := exec.ledger.GetState(contract, slot)
+		zz.Assert("C07.broker.failed-transaction-leaves-evm-storage", ok && len(v) == 32 && v[31] == 7)
+	}
+}
